@@ -41,6 +41,7 @@ type fn struct {
 	storesRec bool  // it, or a function it calls, assigns to a field of a record through a pointer (`p.f = e`)
 	grand     bool  // it, or a function it calls, draws from math/rand's package-level generator (rand.Intn)
 	variadic  bool  // its last declared parameter is `vals ...T`
+	lends     bool  // a result is an alias of the receiver's storage (lentResult)
 	callees   []*fn // translated functions called, in order of first call
 }
 
